@@ -255,6 +255,7 @@ class System:
                     out.append(("skippair",))
                     out.append(("classskip",))
                 out.append(("placeholder",))
+                out.append(("placeholder_a",))
         elif not m.has_outcome:
             out.append(("addSuccess",))
             out.append(("addFailure",))
@@ -329,6 +330,15 @@ class System:
                 m.tests += 1
                 expect_seen = m.G
                 expect_branch = m.G
+            elif name == "placeholder_a":
+                # a PlaceHolder carrying a tag that may be current at run level already (a replayed
+                # test of a worker whose tag the run carries): the run-level tag survives it
+                PlaceHolder("ph", tags={"a"}).run(top)
+                m.tests += 1
+                expect_seen = (m.G | {"a"} | tg_new) - tg_gone
+                expect_branch = (m.G | {"a"} | b_new) - b_gone  # (that Tagger may strip 'a' inside the test)
+                if "a" not in m.G:
+                    m.G = m.G - {"a"}
             elif name == "placeholder":
                 PlaceHolder("ph", tags={"p"}).run(top)
                 m.tests += 1
